@@ -203,6 +203,37 @@ theorem interval_order (o : SortOptions) (a b : FVal) :
 example : (FTy.prod [4, 4]).admits (some (.ints [0, -1500])) = true ∧
     compareField ⟨false, false⟩ (.prod [4, 4]) (some (.ints [0, -1500])) (some (.ints [0, 2000])) = .lt := by decide
 
+open ArrowModel.Generated.C11 in
+/-- **The critical expressions have the shape the model mirrors.**  Guards
+(`val.len() <= BLOCK_SIZE`, `row[0] != non_empty_sentinel`, `len <= BLOCK_SIZE` in
+`non_null_padded_length`), statement order (length byte / continuation byte written last,
+descending inversion over the whole `out[..len]` after the blocks), operand sources (child
+options of list / run-end / map = `{descending: false, nulls_first: nulls_first != descending}`,
+of struct / fixed-size list / dictionary = the parent's options; struct row = sentinel then
+child row; list = elements then `encode_empty`) and `Rows::push` / `clear` are found verbatim
+in the source: none of the regenerated SHAPE items is lost (an edit of any of these expressions
+loses its item and this `decide` fails). -/
+theorem shapes_as_written :
+    (SHAPE_ENC_ONE_lost ||
+      SHAPE_ENC_ONE_DESC_lost ||
+      SHAPE_ENC_BLOCKS_TAIL_lost ||
+      SHAPE_PADDED_LEN_lost ||
+      SHAPE_ENC_EMPTY_lost ||
+      SHAPE_DECODE_GUARD_lost ||
+      SHAPE_FIXED_DESC_lost ||
+      SHAPE_FIXED_NOT_NULL_DESC_lost ||
+      SHAPE_UNSIGNED_lost ||
+      SHAPE_CHILD_OPTS_LIST_lost ||
+      SHAPE_CHILD_OPTS_REE_lost ||
+      SHAPE_CHILD_OPTS_MAP_lost ||
+      SHAPE_CHILD_OPTS_STRUCT_lost ||
+      SHAPE_CHILD_OPTS_FSL_lost ||
+      SHAPE_CHILD_OPTS_DICT_lost ||
+      SHAPE_LIST_ENCODE_ONE_lost ||
+      SHAPE_STRUCT_ENCODE_lost ||
+      SHAPE_REE_ENCODE_lost ||
+      SHAPE_ROWS_PUSH_lost) = false := by decide
+
 /-! ### nested types
 
 `Struct`, `List` kinds, `Map`, `FixedSizeList`, `Dictionary`, `RunEndEncoded`, `Null` of any
